@@ -16,7 +16,7 @@ EXPLANATION = (
     "from that indexed note (body or todo payload) and is not already dated today; a stamped note gets today's date and a body "
     "in which today's YYMMDD takes the place of the old modify-date word (or is put in front when there was none); every other "
     "note is untouched; one ModifiedZorgNotesEvent listing exactly the stamped notes in page order is queued iff something was "
-    "stamped (new page <= 1 / 2 notes, old page <= 2 notes, every field fully symbolic; Page.notes through an assumed contract). "
+    "stamped (new page <= 1 note, old page <= 2 / 3 notes, every field fully symbolic; Page.notes through an assumed contract). "
     "_pop_line_before_zid and _add_or_update_modify_date are verified against the specification of the stamped first line "
     "(YYMMDD inserted in front of the ZID, or replacing the date that is there; prefix kept) for every first line of a bounded "
     "number of fully symbolic words. "
